@@ -101,7 +101,10 @@ DEP_REQUESTS = {
     # two and more repeated scalar fields (regression for fix: 9d33fc0 — IndentationError in the sync client)
     ".google.protobuf.FileDescriptorProto": ("google/protobuf/descriptor.proto", ["name", "package", "dependency", "public_dependency"]),
 }
-SAFE_DEPS = [k for k in DEP_REQUESTS if k not in (".google.api.ResourceDescriptor", ".google.longrunning.WaitOperationRequest")]
+# every dependency request is generated; only the TRIGGERS of the two module-level findings are kept out of the random
+# signatures (a reserved-word field of a raw dependency message: generator KeyError; a field called like a fixed parameter:
+# duplicate argument) — `gen_method` filters those fields, not the messages
+SAFE_DEPS = list(DEP_REQUESTS)
 
 # dotted paths below the helper messages that the random stream may use
 SUB_PATHS = {
@@ -141,7 +144,8 @@ def gen_method(r: apigen.Rng, idx: int, svc_sub=None):
     """one method of the 'flatten' profile (DESIGN §7.5 generator); `svc_sub` not None = general package layout"""
     if r.maybe(0.22):
         dep = r.pick(SAFE_DEPS)
-        pool = DEP_REQUESTS[dep][1]
+        from gapic.utils.reserved_names import RESERVED_NAMES
+        pool = [p for p in DEP_REQUESTS[dep][1] if not any(seg in RESERVED_NAMES for seg in p.split("."))]
         m = {"name": f"Dep{idx}", "dep": dep, "fields": None}
     else:
         general = svc_sub is not None
@@ -854,39 +858,150 @@ def shape_flags(codec, input_full, sigs, reserved, cross):
     return flags
 
 
+def shape_details(codec, input_full, sigs, reserved, cross):
+    """the TRIGGERS of the known findings, per method (what exactly the recorded defect needs):
+    dups          python parameter names that occur twice (or clash with request/retry/timeout/metadata)
+    reserved      `<segment>_` for every reserved-word segment of a signature of a raw dependency-package request
+    ctor_missing  terminal parameter names of dotted keys of a different-package request that are NO top-level field
+    misroute      {dotted key: top-level proto field of the same python name} of a different-package request
+    replist       repeated non-map keys"""
+    out = dict(dups=[], reserved=[], ctor_missing=[], misroute={}, replist=[])
+    desc = codec.pool.FindMessageTypeByName(input_full)
+    top = {py_attr(desc, fd, reserved): fd.name for fd in desc.fields}
+    terms = list(FIXED_PARAMS)
+    for p in declared_paths(sigs):
+        segs = p.split(".")
+        if cross and not is_own(desc):
+            out["reserved"] += [s + "_" for s in segs if s in reserved]
+        ch = walk(codec, input_full, p)
+        if ch is None:
+            continue
+        owner, fd = ch[-1]
+        if cross and (fd.message_type is not None or fd.enum_type is not None):
+            continue
+        term = py_attr(owner, fd, reserved)
+        if term in terms:
+            out["dups"].append(term)
+        terms.append(term)
+        if cross and len(segs) > 1:
+            if term in top:
+                out["misroute"][p] = top[term]
+            else:
+                out["ctor_missing"].append(term)
+        if fd.label == fd.LABEL_REPEATED and not (fd.message_type is not None and fd.message_type.GetOptions().map_entry):
+            out["replist"].append(p)
+    return out
+
+
 def overlapping(keys):
     return any(a != b and b.startswith(a + ".") for a in keys for b in keys)
 
 
-def classify(kind, flags, plan=None, msg=""):
-    """canonical signature key of a failure: a known excluded shape + the observable it is known to break, else generic"""
-    if kind == "generation-crash" and "cross-reserved" in flags and "KeyError" in msg:
+def with_parents(full, paths):
+    """`full` + the (empty) parent messages along dotted paths: what `request.a.b.c = []` leaves on the wire"""
+    out = copy.deepcopy(full)
+    for p in paths:
+        d = out
+        for seg in p.split(".")[:-1]:
+            d = d.setdefault(seg, {})
+    return out
+
+
+def with_doubled(full, paths):
+    """`full` with the list at each path holding its items twice (assigned with the parent message, then extended)"""
+    out = copy.deepcopy(full)
+    for p in paths:
+        v = get_path(out, p)
+        if isinstance(v, list):
+            set_path(out, p, v + v)
+    return out
+
+
+def with_misrouted(full, moves):
+    """`full` with the value of each dotted key moved to the top-level field of the same name (parents left empty are absent)"""
+    out = copy.deepcopy(full)
+    for p, topname in moves.items():
+        v = get_path(out, p)
+        if v is None:
+            continue
+        segs = p.split(".")
+        chain = [out]
+        for seg in segs[:-1]:
+            chain.append(chain[-1][seg])
+        del chain[-1][segs[-1]]
+        for i in range(len(chain) - 1, 0, -1):
+            if chain[i] == {}:
+                del chain[i - 1][segs[i - 1]]
+        out[topname] = v
+    return out
+
+
+def classify(kind, flags, plan=None, msg="", obs=None):
+    """canonical signature key of a failure.  A KNOWN key is returned only when the method has the TRIGGER of the recorded
+    defect (decided from the descriptors / signatures / given arguments: `shape_details`, `raw_keys`, `marshal_chain`) AND the
+    symptom is the recorded one (same exception type and message naming the same field / the very request the defect is known
+    to send); every other failure keeps its generic kind — an unlisted key, hence a VIOLATION."""
+    import re
+    obs = obs or {}
+    det = obs.get("details") or {}
+    if kind == "generation-crash" and "cross-reserved" in flags and msg == "KeyError@schema/wrappers.py:get_field" and \
+            obs.get("detail", "").strip("'\"") in det.get("reserved", []):
         return "cross-package-reserved-name:generator-keyerror"
-    if kind == "import-failed" and "dup-param" in flags and "duplicate argument" in msg:
-        return "duplicate-parameter-name:syntaxerror"
+    if kind == "import-failed" and "dup-param" in flags:
+        mm = re.search(r"SyntaxError: duplicate argument '(\w+)' in function definition", msg)
+        if mm and mm.group(1) in det.get("dups", []):
+            return "duplicate-parameter-name:syntaxerror"
     if plan is not None:
         given, falsy = plan[0], plan[1]
         rawrep, rawmsg = plan[2] if len(plan) > 2 else ([], [])
-        marshal, misroute = plan[3] if len(plan) > 3 else ([], [])
-        # a key INTO a marshalled well-known type: `request.ttl` is a timedelta / None
-        if kind in ("sync-kwargs-raised", "async-kwargs-raised") and any(p in marshal for p in given) and \
-                ("readonly attribute" in msg or "object has no attribute" in msg or "not writable" in msg):
-            return "marshalled-owner:attributeerror"
-        # the asyncio constructor call of a cross-package request puts a dotted key into the TOP-LEVEL field of the same name
-        if kind in ("async-kwargs-vs-request", "sync-async") and "cross-dotted" in flags and not msg and \
-                any(p in misroute for p in given):
-            return "async-cross-package-dotted-key:ctor-misroutes"
-        if "Assignment not allowed" in msg:
-            if kind in ("sync-kwargs-raised", "async-kwargs-raised", "sync-async") and any(p in rawmsg for p in given):
-                return "raw-owner-message:assign-attributeerror"
-        if kind in ("async-kwargs-raised", "sync-async") and "cross-dotted" in flags and ("has no" in msg or "Unknown field" in msg):
-            return "async-cross-package-dotted-key:ctor-valueerror"
-        if kind in ("async-kwargs-vs-request", "sync-async") and overlapping(given):
-            return "overlapping-keys:async-extends"
-        # (a repeated key of a raw protobuf owner is EXTENDED by the sync client too since fix: 9d33fc0: same finding, both clients)
-        if kind == "sync-kwargs-vs-request" and overlapping(given) and any(p in rawrep for p in given):
-            return "overlapping-keys:async-extends"
-        if kind == "sync-async" and any("." in p for p in falsy) and not msg:
+        marshal = plan[3] if len(plan) > 3 else {}
+        exc, full = obs.get("exc"), obs.get("full")
+        leaf = lambda p: p.rsplit(".", 1)[-1]
+        # a key INTO a marshalled well-known type: `request.ttl` is a timedelta (read-only) / None — AttributeError naming the leaf
+        if kind in ("sync-kwargs-raised", "async-kwargs-raised") and exc == "AttributeError":
+            for p in given:
+                if p in marshal and (f"'NoneType' object has no attribute '{leaf(p)}'" in msg or
+                                     (marshal[p] == "google.protobuf.Duration" and ("readonly attribute" in msg or "not writable" in msg))):
+                    return "marshalled-owner:attributeerror"
+            # protobuf refuses `raw_owner.<message field> = x`: AttributeError naming that field
+            for p in given:
+                if p in rawmsg and f'Assignment not allowed to message field "{leaf(p)}"' in msg:
+                    return "raw-owner-message:assign-attributeerror"
+        # the asyncio constructor call of a different-package request: a dotted key is passed under its terminal name …
+        ctor_msgs = [f'has no "{t}" field' for t in det.get("ctor_missing", [])] + [f": {t}" for t in det.get("ctor_missing", [])]
+        ctor_hit = lambda text: any(c in text and ("Protocol message" in text or "Unknown field for" in text) for c in ctor_msgs)
+        if "cross-dotted" in flags:
+            # … which is no top-level field: ValueError on every call
+            if kind == "async-kwargs-raised" and exc == "ValueError" and ctor_hit(msg):
+                return "async-cross-package-dotted-key:ctor-valueerror"
+            sy, asy = obs.get("sync"), obs.get("async")
+            if kind == "sync-async" and asy and asy[0] == "raised" and asy[1] == "ValueError" and ctor_hit(asy[2]) and \
+                    (sy[0] == "sent" or (sy[0] == "raised" and sy[1] == "AttributeError" and any(p in marshal for p in given))):
+                return "async-cross-package-dotted-key:ctor-valueerror"
+            # … which IS a top-level field: the value is sent there, silently
+            moved = {p: t for p, t in det.get("misroute", {}).items() if p in given}
+            if moved and full is not None:
+                wrong = with_misrouted(full, moved)
+                if kind == "async-kwargs-vs-request" and obs.get("sent") == wrong:
+                    return "async-cross-package-dotted-key:ctor-misroutes"
+                if kind == "sync-async" and sy == ("sent", full) and asy == ("sent", wrong):
+                    return "async-cross-package-dotted-key:ctor-misroutes"
+        # a message key and a repeated (list) key below it given together: assigned with the message, then EXTENDED — items twice
+        below = [q for q in given if q in det.get("replist", []) and any(q.startswith(a + ".") for a in given)]
+        if below and full is not None:
+            twice_async = with_doubled(full, below)
+            twice_sync = with_doubled(full, [q for q in below if q in rawrep])   # (raw owner: the sync client extends too, fix 9d33fc0)
+            if kind == "async-kwargs-vs-request" and obs.get("sent") == twice_async:
+                return "overlapping-keys:async-extends"
+            if kind == "sync-kwargs-vs-request" and twice_sync != full and obs.get("sent") == twice_sync:
+                return "overlapping-keys:async-extends"
+            if kind == "sync-async" and obs.get("sync") == ("sent", twice_sync) and obs.get("async") == ("sent", twice_async):
+                return "overlapping-keys:async-extends"
+        # an EMPTY list/dict for a dotted key: the sync assignment leaves the parents present, asyncio skips the key
+        dotted_falsy = [p for p in falsy if "." in p]
+        if kind == "sync-async" and dotted_falsy and full is not None and \
+                obs.get("async") == ("sent", full) and obs.get("sync") == ("sent", with_parents(full, dotted_falsy)) and \
+                with_parents(full, dotted_falsy) != full:
             return "falsy-dotted-container:parents-present-in-sync-only"
     return kind
 
@@ -903,12 +1018,10 @@ def run_api(ctx, r, spec, label, plans=None, expect_flags=False):
     for m in spec["methods"]:
         input_full, cross = input_of(m, spec)
         want = expected_params(codec, input_full, m["sigs"], reserved, cross)
-        top = {py_attr(codec.pool.FindMessageTypeByName(input_full), fd, reserved)
-               for fd in codec.pool.FindMessageTypeByName(input_full).fields}
         info[m["name"]] = dict(input=input_full, cross=cross, flags=shape_flags(codec, input_full, m["sigs"], reserved, cross),
                                want=want, cs=bool(m.get("cs")), raw=raw_keys(want, cross),
-                               marshal=[w[0] for w in (want or []) if marshal_chain(w[3])],
-                               misroute=[w[0] for w in (want or []) if cross and "." in w[0] and w[1] in top])
+                               marshal={w[0]: w[3][-1][0].full_name for w in (want or []) if marshal_chain(w[3])},
+                               details=shape_details(codec, input_full, m["sigs"], reserved, cross))
     allflags = set().union(*[i["flags"] for i in info.values()]) if info else set()
     payload0 = {"spec": spec}
     # ------------------------------------------------------------------ T2: schema side
@@ -979,12 +1092,16 @@ def run_api(ctx, r, spec, label, plans=None, expect_flags=False):
         ctx.traces += 1
         if not model_gen_error:
             ctx.disagree("T3:c05.generation", f"generator raised {err} but the model maps every signature", payload0)
-        bad = [m for m in spec["methods"] if "error" in model[m["name"]]] or spec["methods"]
+        predicted = [m for m in spec["methods"] if "error" in model[m["name"]]]
+        bad = predicted or spec["methods"]
         fl = info[bad[0]["name"]]["flags"]
         if "unresolvable" in fl:
             ctx.assume("a signature naming a field the request does not have aborts generation with KeyError (outside the quantifier)")
         else:
-            ctx.fail(classify("generation-crash", fl, msg=err[0]), f"generator raised {err[0]}: {err[1]}", {"spec": sub_spec(spec, bad[:1])})
+            # (a known key needs a method that HAS the trigger: the one the model predicts to abort; none predicted -> generic key)
+            ctx.fail(classify("generation-crash", fl if predicted else set(), msg=err[0],
+                              obs={"detail": err[1], "details": info[bad[0]["name"]]["details"]}),
+                     f"generator raised {err[0]}: {err[1]}", {"spec": sub_spec(spec, bad[:1])})
         return
     if model_gen_error:
         ctx.disagree("T3:c05.generation", "model raises KeyError but the generator produced a library", payload0)
@@ -1065,7 +1182,8 @@ def run_api(ctx, r, spec, label, plans=None, expect_flags=False):
             if not emit_bad:
                 ctx.disagree("T3:c05.emit", f"emitted service module does not import ({msg}) but the model's emitCheck passes", payload0)
             bad = [m for m in spec["methods"] if model_emit[m["name"]] != "ok"]
-            ctx.fail(classify("import-failed", info[(bad or spec["methods"])[0]["name"]]["flags"], msg=msg),
+            ctx.fail(classify("import-failed", info[bad[0]["name"]]["flags"] if bad else set(), msg=msg,
+                              obs={"details": {"dups": [d for b in bad for d in info[b["name"]]["details"]["dups"]]}}),
                      f"the emitted client module cannot be imported: {msg}", {"spec": sub_spec(spec, bad[:1]) if bad else spec})
             return
         if emit_bad:
@@ -1131,7 +1249,7 @@ def run_api(ctx, r, spec, label, plans=None, expect_flags=False):
         for i, (m, given, falsy, full, keys, mixed_key, leaves) in enumerate(index):
             inf = info[m["name"]]
             desc = codec.pool.FindMessageTypeByName(inf["input"])
-            plan = (given, falsy, inf["raw"], (inf["marshal"], inf["misroute"]))
+            plan = (given, falsy, inf["raw"], inf["marshal"])
             pl = {"spec": sub_spec(spec, [m]),
                   "plans": {m["name"]: [[given, falsy, full] + ([leaves] if leaves else [])]}}
             ctx.count("marshal_key_given", any(p in inf["marshal"] for p in given))
@@ -1176,9 +1294,12 @@ def run_api(ctx, r, spec, label, plans=None, expect_flags=False):
                     ctx.fail(classify(f"{cl}-request-call", inf["flags"], plan), f"{m['name']} ({cl}) request call: {wr}, expected {full}", pl)
                 # oracle 2: the kwargs call sends the same request
                 if wk[0] == "raised":
-                    ctx.fail(classify(f"{cl}-kwargs-raised", inf["flags"], plan, msg=wk[2]), f"{m['name']} ({cl}) kwargs {keys}: raised {wk[1]}: {wk[2]}", pl)
-                elif wk != want_req and not any("." in p for p in falsy):      # (see the first assumption of run())
-                    ctx.fail(classify(f"{cl}-kwargs-vs-request", inf["flags"], plan), f"{m['name']} ({cl}) kwargs {keys}: sent {wk[1:]}, request call sends {full}", pl)
+                    ctx.fail(classify(f"{cl}-kwargs-raised", inf["flags"], plan, msg=wk[2], obs={"exc": wk[1], "details": inf["details"]}),
+                             f"{m['name']} ({cl}) kwargs {keys}: raised {wk[1]}: {wk[2]}", pl)
+                elif wk != want_req and wk != ("sent", with_parents(full, [p for p in falsy if "." in p])):
+                    # (first assumption of run(): for an empty list/dict passed for a DOTTED key the request may carry the empty parents — and nothing else)
+                    ctx.fail(classify(f"{cl}-kwargs-vs-request", inf["flags"], plan, obs={"sent": wk[1] if len(wk) > 1 else None, "full": full, "details": inf["details"]}),
+                             f"{m['name']} ({cl}) kwargs {keys}: sent {wk[1:]}, request call sends {full}", pl)
                 # oracle 3: request + any flattened argument -> ValueError, nothing sent
                 if not (wm[0] == "raised" and wm[1] == "ValueError" and wm[3] == 0 and "individual field arguments" in wm[2]):
                     ctx.fail(classify("mixed-call-not-rejected", inf["flags"]), f"{m['name']} ({cl}) request + {mixed_key}: {wm}", pl)
@@ -1191,7 +1312,8 @@ def run_api(ctx, r, spec, label, plans=None, expect_flags=False):
             # oracle 4: sync and asyncio behave identically
             if seen[False][:2] != seen[True][:2]:
                 msg = " ".join(str(x[2]) for x in seen.values() if x[0] == "raised")
-                ctx.fail(classify("sync-async", inf["flags"], plan, msg=msg), f"{m['name']} kwargs {keys}: sync {seen[False]} vs asyncio {seen[True]}", pl)
+                ctx.fail(classify("sync-async", inf["flags"], plan, msg=msg, obs={"sync": seen[False], "async": seen[True], "full": full, "details": inf["details"]}),
+                         f"{m['name']} kwargs {keys}: sync {seen[False]} vs asyncio {seen[True]}", pl)
     finally:
         genrun.cleanup(root)
 
